@@ -57,7 +57,7 @@ CHECKS["C03"] = dict(
 CHECKS["C04"] = dict(
   category="exploration",
   technique="rapid model-based generation of valid-by-construction module sets (schema model + reference binder) with an invariant walk over all resulting trees, plus planted late/hidden problems that must surface as errors",
-  text="Module sets are generated from a typed schema model (imports, submodules with nested includes, typedefs/groupings at all scopes, nested cross-module uses, choices, rpc/action/notification) in model or permuted load order. When Process() is clean every module tree is walked over Dir and RPC input/output and the structural invariants of the property are asserted (key=name, parent link incl. input/output, no *Entry met twice, kind/child-map/list-attribute/type consistency, choice children are cases, no leftover augment, no recorded error, GetErrors() empty); sets with a planted problem that only shows late or in a place the collectors might not visit must not process cleanly. Sampling over an unbounded space; the evidence reports how many cases had nodes that went through >= 2 copy/merge steps.",
+  text="Module sets are generated from a typed schema model (imports, submodules with nested includes, typedefs/groupings at all scopes, nested cross-module uses, choices, rpc/action/notification) in model or permuted load order. When Process() is clean every module tree is walked over Dir and RPC input/output and the structural invariants of the property are asserted (key=name, parent link incl. input/output, no *Entry met twice, kind/child-map/list-attribute/type consistency, choice children are cases, no leftover augment, no recorded error, GetErrors() empty); sets with a planted problem that only shows late or in a place the collectors might not visit (below rpc input/output; on a node that a deviation of the same module removes afterwards) must not process cleanly; a fifth of the sets also hold submodules that no module includes. Sampling over an unbounded space; the evidence reports how many cases had nodes that went through >= 2 copy/merge steps.",
   note="Trusts the schema model's own expansion only for the non-triviality rule and for deciding that a planted problem is a problem. Submodule trees are walked but not part of the sharing clause.",
   design="DESIGN.md section 4, C04")
 CHECKS["C09"] = dict(
@@ -108,7 +108,7 @@ CHECKS["C17"] = dict(
 CHECKS["C18"] = dict(
   category="exploration",
   technique="rapid-generated operation histories (stateful model-based testing) against a batch-run reference: after every process the result must equal a fresh module set loaded with exactly the accepted texts",
-  text="Histories of load(good), load(bad: syntax error, module or submodule rejected after an inner typedef was built, duplicate), process and read operations over one Modules are generated with a pool of mutually consistent texts loaded in random order (imports/includes often missing at first). The model is the list of accepted texts; after every process the error list and the complete dump (all module and submodule trees with types, attributes, identity lists) must equal those of a fresh set with the same texts processed once, consecutive runs must agree and every bad load must return an error. Histories whose batch run itself crashes are left to C01.",
+  text="Histories of load(good), load(bad: syntax error, module or submodule rejected after an inner typedef was built, duplicate), process and read operations over one Modules are generated with a pool of mutually consistent texts loaded in random order (imports/includes often missing at first). The model is the list of accepted texts; after every process the error list and the complete dump (all module and submodule trees with types, attributes, identity lists) must equal those of a fresh set with the same texts processed once, consecutive runs must agree and every bad load must return an error. A quarter of the bad texts and, in pools without a second revision of any module, a part of the good ones are read with Modules.Read from a directory that holds files of every pool text (the search path is then part of what a failed load must leave alone); Modules.GetModule is an operation of its own, compared with the same call on a fresh set. Histories whose batch run itself crashes are left to C01.",
   note="Trusts only equality of two runs of the code under test (metamorphic/differential oracle) and the canonical dump. Multi-module texts are not used; revisions appear in a dedicated family of 2-3 revisions with importers of many shapes; reads respect the documented 'Process first' precondition.",
   design="DESIGN.md section 4, C18")
 
@@ -116,19 +116,19 @@ CHECKS["C13"] = dict(
   category="exploration",
   technique="five rapid generators with reference models: module headers x all load permutations (revision binding), generated directory layouts in temporary directories (file chooser model), revisions partly loaded and partly on the search path with dated and undated importers (binding invariants), revisions of a module over revisions of a submodule, and a metamorphic split of a module into submodules that must not change the result",
   text="(a) 1-5 module headers over two names and four dates with importers are loaded in every permutation (<= 24; 12 sampled for five texts): acceptance per (name, latest revision), the bare key, dated keys and import bindings must follow the model in every order. (b) Up to seven candidate and near-miss files in 1-3 search-path directories, each declaring the wanted module with a namespace that names its own path, fetched by Read, import and dated import: the chosen file must be the model's (first directory with a candidate, exact name else latest date, never a near miss, failure when none). (e) Revisions of one module partly loaded, partly waiting as files on the search path, with 1-3 dated and undated importers in three load orders: after one Process the bare name and undated imports denote the latest revision held, dated imports their revision when held, and each importer sees one revision. (d) 1-3 revisions of a module each including a submodule by name or by date, 1-2 submodule texts, nested includes: every revision holds exactly what its includes denote. (c) A generated module and a random partition of its body into 1-3 submodules with the includes its references need (mutual includes with the ignore-circular option): tree, types, attributes and identity lists must equal those of the unsplit module.",
-  note="Trusts the small reference models in the check and canon's dump. Recursive dir/... search order and belongs-to prefixes differing from the module prefix are not generated; temporary directories live under the system temp dir and are removed per case.",
+  note="Trusts the small reference models in the check and canon's dump. Below a dir/... entry all true candidates lie in one directory (the order in which sub-directories are asked is not modelled); in a fifth of the file cases the first directory is the current directory of the process instead of a search-path entry; dates need not be calendar days; temporary directories live below the run's output directory and are removed per case.",
   design="DESIGN.md section 4, C13")
 CHECKS["C19"] = dict(
   category="exploration",
   technique="stress under the Go race detector with rapid-generated module sets and query scripts, each case in a child process so that a race report is attributed; results compared with a sequential run (differential)",
-  text="Each case runs in a child process of the -race test binary with GOMAXPROCS=8: either 8-16 barrier-released goroutines each running the full load-process-dump pipeline on its own generated module set (3 rounds), or 8-16 readers issuing the same 60 generated read-only queries (path lookups start at module roots and at inner nodes, including nodes written in submodules) in individually shuffled orders against one freshly processed set, the first query of each being a first-time instantiating-module lookup (4 rounds). Any race report on the child's output, any panic and any result that differs from the sequential run of the same work is a violation. The family does not own the scheduler: what is decided is the absence of unsynchronised conflicting accesses on the exercised paths and of result-changing interference during the stress, not all interleavings.",
-  note="Trusts the Go race detector. Queries never name unwritten rpc input/output nor unresolvable prefixes (those lookups write by design).",
+  text="Each case runs in a child process of the -race test binary with GOMAXPROCS=8: either 8-16 barrier-released goroutines each running the full load-process-dump pipeline on its own generated module set (3 rounds), or 8-16 readers issuing the same 60 generated read-only queries (path lookups start at module roots and at inner nodes, including nodes written in submodules) in individually shuffled orders against one freshly processed set, the first query of each being a first-time instantiating-module lookup and the second, where the set has one, a lookup of a node below the written input or output of an rpc or action whose other half may be unwritten (4 rounds). Any race report on the child's output, any panic and any result that differs from the sequential run of the same work is a violation. The family does not own the scheduler: what is decided is the absence of unsynchronised conflicting accesses on the exercised paths and of result-changing interference during the stress, not all interleavings.",
+  note="Trusts the Go race detector. Queries never name an rpc input/output node itself nor unresolvable prefixes (those lookups may write by design); nodes below an existing input or output are looked up.",
   design="DESIGN.md section 4, C19")
 
 CHECKS["C05"] = dict(
   category="exploration",
   technique="metamorphic testing: rapid-generated module sets with ties, conflicts and planted faults are run repeatedly and in permuted load orders in fresh module sets (and through the goyang command), all results must be identical; invariant check on every returned error list",
-  text="Module sets biased toward ties and conflicts (equal identity names under one base, several deviate statements, two deviating modules, chained augments, 1-3 planted faults spread over files, mirror-image modules handed over under one source name) are loaded in every permutation (<= 3 sources) or model order plus 7 random orders, 4 times each in fresh module sets inside one process; load errors, the Process() error strings in order and the complete canonical dump must be identical in all runs, error lists ordered by file/line/column without duplicates. A twelfth of the cases also run the goyang binary built from the working tree 6 times per format (tree, types) with two argument orders and compare exit status, stdout and stderr byte for byte.",
+  text="Module sets biased toward ties and conflicts (equal identity names under one base, several deviate statements, two deviating modules, chained augments, 1-3 planted faults spread over files, mirror-image modules handed over under one source name) are loaded in every permutation (<= 3 sources) or model order plus 7 random orders, 4 times each in fresh module sets inside one process; load errors, the Process() error strings in order and the complete canonical dump must be identical in all runs, error lists ordered by file/line/column without duplicates. A sixteenth of the sets are handed over without any source name (positions then read 'line L:C'). A twelfth of the cases also run the goyang binary built from the working tree 6 times per format (tree, types) with two argument orders, and with --path over a directory tree that holds every imported text in a sub-directory of its own, and compare exit status, stdout and stderr byte for byte.",
   note="No reference model: the oracle is equality between runs of the code under test. Order dependence is observed only if the Go runtime iterates a map differently in one of the 24-32 runs of a case (about 1/8 per range for a two-entry map with Go 1.23), so a single tie can stay unseen in one case with probability of a few percent; features recur over hundreds of cases.",
   design="DESIGN.md section 4, C05")
 
